@@ -2,7 +2,7 @@ from pyvc.api import Registry
 
 
 def build_registry():
-    from . import sort_c, conversion_c, view_c, gfa_c, index_c
+    from . import sort_c, conversion_c, view_c, gfa_c, index_c, order_c, phase_c, stat_c, gaf_c
     reg = Registry()
     sort_c.register(reg)
     conversion_c.register(reg)
@@ -13,4 +13,9 @@ def build_registry():
     view_c.register_selection(reg)
     gfa_c.register(reg)
     index_c.register(reg)
+    order_c.register(reg)
+    phase_c.register(reg)
+    stat_c.register(reg)
+    gaf_c.register(reg)
+    gaf_c.register_printer(reg)
     return reg
